@@ -130,6 +130,10 @@ def run_property(prop, tier, facts_override=None, quiet=False):
         all_insts.extend(ctx.insts)
         counts[cfg] = crate.counts()
         counts[cfg]["features"] = crate.features
+        if crate.norm is not None:
+            counts[cfg]["normalisation"] = {"helpers_spliced": ["%s <- %s (%s)" % (x["caller"], x["callee"], x["kind"]) for x in crate.norm["inlined"]],
+                                            "helpers_absorbed": crate.norm["absorbed"], "splice_refused": crate.norm["refused"],
+                                            "bool_edges_threaded": crate.norm["threaded_edges"], "variant_edges_threaded": crate.norm["threaded_variant_edges"]}
     for p in made:
         try:
             os.unlink(p)
